@@ -36,7 +36,10 @@ REJECT_KINDS = ["other", "samename-atoms", "samename-count", "returned", "none",
 
 @st.composite
 def op_strategy(draw):
-    k = draw(st.sampled_from(["call", "call", "call", "again", "call_ref", "reject", "reject", "mutate", "call_deg"]))
+    k = draw(st.sampled_from(["call", "call", "call", "again", "call_ref", "reject", "reject", "mutate", "call_deg",
+                              "same_scale"]))
+    if k == "same_scale":
+        return ["same_scale"]
     if k in ("call", "call_deg"):
         return [k, draw(gen.SEEDS), draw(st.integers(1, 99000))]
     if k == "again":
@@ -210,6 +213,10 @@ def check(case):
             else:
                 raise PropertyViolation("reject", "step %d: argument of kind %s was accepted" % (step, what))
             n_reject += 1
+            disturbed_since = True
+        elif kind == "same_scale":
+            # the public attribute is assigned the value it already has: nothing may change
+            M.scale_factor = s
             disturbed_since = True
         elif kind == "mutate":
             mol = ref if op[1] == "ref" else tgt
